@@ -77,6 +77,25 @@ CLAIMED = {
         technique="symbolic execution of both descriptions + z3 equivalence queries (If-resolution, abs canonicalisation, "
                   "rational normal form, NRA); counterexamples replayed on the real pipeflow",
         design="4/C09"),
+    "C10": dict(
+        text="Bounded model checking of the real thermal code at an arbitrary thermal state: the residual rows the real "
+             "pipeflow (sequential / bidirectional, numpy and numba py_func) assembles for the thermal Newton system are "
+             "proved equal, as terms over all inputs, to the documented cooling law per section (exponent and row, actual "
+             "flow direction), to the energy-conserving mixing equation with the mean heat capacity per stream, and the "
+             "feeder temperatures are proved to be imposed; the outlet-between-inlet-and-ambient bound follows from the "
+             "row with 0 < exp <= 1.",
+        technique="symbolic execution of the real Python source at the exact fixed point + z3 term identities (rewriter, "
+                  "rational normal form, NRA); counterexamples replayed on the real pipeflow",
+        design="4/C10"),
+    "C11": dict(
+        text="Same engine as C10: the thermal (and, for the return-temperature mode, hydraulic) row of every heat consumer / "
+             "exchanger is proved equal to T_from - T_out - q/(c_m |m|) resp. -q + m c_m (T_from - T_out) for all values, the "
+             "mode-specific heat terms and set-points are proved as term identities, the circulation pump's reported heat is "
+             "proved to be m (cp T)_flow - m (cp T)_return, and the arithmetic steps (row = 0 => duty equation, loop closure "
+             "for constant heat capacity) are discharged once as nlsat lemmas.",
+        technique="symbolic execution of the real Python source at the exact fixed point + z3 term identities and nlsat lemmas; "
+                  "counterexamples replayed on the real pipeflow; one known finding (F17) listed",
+        design="4/C11"),
     "C12": dict(
         text="Bounded model checking over histories of the real pipeflow: (purity) every input cell, fluid, std types, "
              "stored user options and defaults are unchanged after a symbolic run; (history) the last call of each "
